@@ -189,7 +189,9 @@ DiffPara(e, g, ctx, cls) ==
       gX == KT(NonText(ga))
       eC == Chars(ea)
       gC == Chars(ga)
-      stay == {q \in e.phs : q.has /\ CountOcc(q.lit, gT) > CountOcc(q.lit, eT)}
+      stay0 == {q \in e.phs : q.has /\ CountOcc(q.lit, gT) > CountOcc(q.lit, eT)}
+      \* the same variable may occur twice, once whole and once split over runs: blame the split one
+      stay == IF \E q \in stay0 : q.split THEN {q \in stay0 : q.split} ELSE stay0
       gone == {q \in e.phs : ~q.has /\ CountOcc(q.lit, gT) < CountOcc(q.lit, eT)}
       lostX == {i \in 1..Len(eX) : eX[i] \notin RangeOf(gX)}
       pc == IF \E q \in e.phs : q.has THEN "replaced" ELSE "untouched"
@@ -222,9 +224,9 @@ JudgeBlocks(B, G, d, ctx, strip) ==
       Expand(i, form) ==
         IF i > Len(B) THEN <<>>
         ELSE (IF B[i].k = "p" THEN ExpectParas(B[i], d, strip, form) ELSE <<B[i]>>) \o Expand(i + 1, form)
-      W(E) == IF Len(E) # Len(G) THEN {<<"block-count", ctx>>}
+      W(E) == IF Len(E) # Len(G) THEN {<<"block-count", ctx, d.cls>>}
               ELSE UNION {
-                IF E[i].k # G[i].k THEN {<<"block-kind", ctx>>}
+                IF E[i].k # G[i].k THEN {<<"block-kind", ctx, d.cls>>}
                 ELSE IF E[i].k = "p" THEN DiffPara(E[i], G[i], ctx, d.cls)
                 ELSE IF E[i].k = "tbl" THEN JudgeTable(E[i], G[i], d, ctx)
                 ELSE IF E[i] = G[i] THEN {} ELSE {<<"other-content-changed", E[i].n, ctx>>} : i \in 1..Len(E)}
